@@ -42,10 +42,11 @@ CheckComplex(e) ==
        \* coboundary: the cofaces, each once
        /\ Len(o.cbd[c + 1]) = Len(CbdSeq(T, sh, c))
        /\ SetOf(o.cbd[c + 1]) = SetOf(CbdSeq(T, sh, c))
-  \* the incidences alternate along the enumeration, with one sign per dimension
-  /\ \E eps \in [0..T.D -> {1, -1}] :
-       \A c \in 0..(T.N - 1) : \A k \in DOMAIN o.bd[c + 1] :
-          EnumSign(k) = eps[T.dim[c]] * IncOf(c, o.bd[c + 1][k])
+  \* the documented incidences alternate along every enumerated boundary
+  /\ \A c \in 0..(T.N - 1) : \E s \in {1, -1} :
+       \A k \in DOMAIN o.bd[c + 1] : EnumSign(k) = s * IncOf(c, o.bd[c + 1][k])
+  \* the enumerated boundaries, with signs alternating along the enumeration, compose to zero
+  /\ DDZero(T, Tab([c \in 0..(T.N - 1) |-> o.bd[c + 1]]), LAMBDA c, k : EnumSign(k))
   /\ o.has_top = hasTop
   /\ hasTop => o.tops = TopSeq(T, sh)
   /\ o.verts = VertSeq(T, sh)
